@@ -230,6 +230,9 @@ structure St where
   pendingSettings : Bool := false           -- processTransaction() with an empty queue but a settings change pending
   rerouteOff : Bool := false                -- the reroute model lost track (see `op` handling); no further comparison
   twoBatches : Bool := false                -- the current call runs two transactions (new JunctionRef, transactions off)
+  lastActs : Option (List Action) := none   -- sorted action list of the transaction being checked
+  estNo : List Nat := []                    -- connectors for which the model's could-be-shorter test (c) ran in this
+                                            -- transaction and certainly said "no" (and nothing else flagged them)
   decided : Option Reroute.RState := none   -- model: flags with which routing starts
   stats : List (String × Nat) := []
   checkedTxns : Nat := 0
@@ -386,6 +389,10 @@ def checkReroute (s : St) (t : Txn) : St := Id.run do
     if t.ran == 0 then
       s := s.setFail (.diverge s!"reroute tie after {s.lastOp}: processTransaction() returned false but the model processed a non-empty queue")
     let mut rst := d
+    let removal := match s.lastActs with
+      | some acts => acts.any (fun (a : Action) => a.kind == Kind.remove || a.kind == Kind.move)
+      | none => false
+    s := { s with estNo := if removal then (d.conns.filter (fun (c : Reroute.ConnSt) => c.poly && !c.route.isEmpty && !c.flagged && !c.unsure)).map (fun c => c.id) else [] }
     for c in d.conns do
       let both := Reroute.bothEnds sc c.id
       let implRp := (lookup t.rp c.id).getD false
@@ -445,6 +452,7 @@ def checkReroute (s : St) (t : Txn) : St := Id.run do
 
 def checkTxn (s : St) : St := Id.run do
   let t := s.txn
+  let s := { s with estNo := [] }
   let s := checkReroute s t
   let s := { s with decided := none }
   let mut s := { s with txn := {}, inTxn := false }
@@ -521,8 +529,13 @@ def checkTxn (s : St) : St := Id.run do
               else acc) []
             let viaNew := decide (s.pen > (0 : Rat)) && decide (bendUnits f ≤ bendUnits r) &&
               (f.toList.drop 1).dropLast.any (fun p => newCorners.contains p)
+            -- the model of the reroute decision explains the stale route: an obstacle was removed / moved away, the
+            -- as-coded could-be-shorter estimate certainly did not flag the connector and nothing else did
+            -- (Props/C06Reroute.removal_estimate_incomplete_witness: the estimate is only a heuristic)
+            let estMiss := s.estNo.contains cid
             let kind := if changed then "rerouted-worse" else if penOnly then "not-rerouted-fewer-bends-only"
-              else if viaNew then "not-rerouted-fewer-bends-via-new-vertex" else "not-rerouted"
+              else if viaNew then "not-rerouted-fewer-bends-via-new-vertex"
+              else if estMiss then "not-rerouted-removal-estimate-said-no" else "not-rerouted"
             -- the same unchanged route found stale again at a later processing point keeps its class
             let kind := match s.staleSeen.find? (fun e => e.1 == cid && e.2.1 == r) with
               | some e => e.2.2
@@ -659,7 +672,8 @@ def stepLine (s : St) (l : Array String) : St :=
       let decided := match s.pendingTxn with
         | some pre => some (Reroute.flagTxn lt3 (polysOf s.rpPrev) (polysOf s.rpCur) (sortActions pre.queue) s.rst)
         | none => if s.pendingSettings then some (Reroute.flagTxn lt3 (polysOf s.rpPrev) (polysOf s.rpCur) [] s.rst) else none
-      return { s with decided := decided, pendingTxn := none, pendingSettings := false,
+      return { s with decided := decided, lastActs := s.pendingTxn.map (fun (pre : State) => sortActions pre.queue),
+                      pendingTxn := none, pendingSettings := false,
                       settingsDirty := s.settingsDirty && decided.isNone, rpPrev := s.rpCur, rpCur := [] }
     let implO := sortBy Obst.id s.obsO
     let implC := sortBy Conn.id s.obsC
